@@ -1097,7 +1097,11 @@ def df_export(inp, W):
         pd.DataFrame = DataFrame
         mods = {"pandas": pd}
     else:
-        pa = types.ModuleType("pyarrow")
+        class _Lenient(types.ModuleType):
+            def __getattr__(self, name):          # pa.float64(), pa.string(), ...: opaque type tokens
+                if name.startswith("__"): raise AttributeError(name)
+                return lambda *a, **k: f"<pyarrow.{name}>"
+        pa = _Lenient("pyarrow")
         pa.array = lambda values, *a, **k: ("array", list(values) if isinstance(values, list) else ["<not a list>", type(values).__name__], len(a) + len(k))
         def table(arrays, names=None, *a, **k):
             got["names"] = list(names) if names is not None else None
